@@ -14,6 +14,7 @@ import random
 import mido
 import mido.midifiles.midifiles as mf
 from mido import Message, MetaMessage, MidiFile, MidiTrack
+from mido.midifiles.meta import UnknownMetaMessage
 
 from .c13 import FakeTime
 
@@ -31,7 +32,7 @@ ASSUMPTIONS = [
     'the twin is built with the public constructor from copies of the messages; equality of results is exact because both files run the same code',
     'exceptions count as results: the edited file and the twin must raise the same exception class',
 ]
-DECIDING = ['observation == fresh twin']
+DECIDING = ['observation == fresh twin', 'observation leaves the contents alone']
 TIMEOUT = {'quick': 300, 'thorough': 1800}
 
 
@@ -50,15 +51,63 @@ def freeze_list(msgs):
     return [(type(m).__name__, tuple(sorted((k, repr(v)) for k, v in vars(m).items()))) for m in msgs]
 
 
-def observe(mid, what, seed):
+def contents(mid):
+    """What the file holds right now: header fields, and per track its identity, name and the identity
+    and state of every message.  An observation is read-only, so this must be the same before and
+    after it - whatever the consumer does with the messages it was handed."""
+    return (mid.type, mid.ticks_per_beat, mid.charset, id(mid.tracks),
+            [(id(tr), [(id(m), type(m).__name__, tuple(sorted((k, repr(v)) for k, v in vars(m).items()))) for m in tr])
+             for tr in mid.tracks])
+
+
+def poke(msgs):
+    """A consumer that edits the messages it was handed (documented as copies)."""
+    for m in msgs:
+        try:
+            m.time = 12345.5
+            if m.type == 'note_on':
+                m.note = (m.note + 1) % 128
+                m.channel = 15
+            elif m.type == 'set_tempo':
+                m.tempo = 777
+            elif m.type == 'marker':
+                m.text = 'poked'
+            elif m.type in ('sysex', 'unknown_meta'):
+                m.data = (1, 2, 3)
+        except Exception:
+            pass
+
+
+def first_diff(a, b):
+    if a[:4] != b[:4]:
+        return {'header': [repr(a[:4]), repr(b[:4])]}
+    for ti, (ta, tb) in enumerate(zip(a[4], b[4])):
+        if ta != tb:
+            for mi, (ma, mb) in enumerate(zip(ta[1], tb[1])):
+                if ma != mb:
+                    return {'track': ti, 'message': mi, 'before': repr(ma[1:])[:200], 'after': repr(mb[1:])[:200]}
+            return {'track': ti, 'len_before': len(ta[1]), 'len_after': len(tb[1])}
+    return {'tracks_before': len(a[4]), 'tracks_after': len(b[4])}
+
+
+def observe(mid, what, seed, consumer_edits=False):
     """Returns a comparable result; exceptions become ('exc', class name)."""
     try:
         if what == 'iter':
-            return freeze_list(list(mid))
+            got = list(mid)
+            res = freeze_list(got)
+            if consumer_edits:
+                poke(got)
+            return res
         if what == 'length':
             return repr(mid.length)
         if what == 'merged':
-            return freeze_list(mid.merged_track)
+            got = mid.merged_track
+            res = freeze_list(got)
+            if consumer_edits:
+                poke(got)
+                del got[:]
+            return res
         if what == 'save':
             b = io.BytesIO()
             mid.save(file=b)
@@ -86,10 +135,14 @@ def observe(mid, what, seed):
             try:
                 rng = random.Random(seed)
                 out = []
+                frozen = []
                 for m in mid.play(meta_messages=rng.random() < 0.5, now=clock.time):
                     out.append(m)
+                    frozen += freeze_list([m])
+                    if consumer_edits:
+                        poke([m])
                     clock.now += rng.choice((0.0, 0.001, 0.5))
-                return freeze_list(out), [(repr(a), repr(d)) for a, d in clock.sleeps]
+                return frozen, [(repr(a), repr(d)) for a, d in clock.sleeps]
             finally:
                 mf.time = orig
         if what == 'repr':
@@ -133,8 +186,10 @@ def rand_msg(rng):
         return Message('program_change', program=rng.randrange(128), time=d)
     if r < 0.85:
         return MetaMessage('marker', text=rng.choice(('a', 'b', '')), time=d)
-    if r < 0.92:
+    if r < 0.90:
         return MetaMessage('end_of_track', time=d)
+    if r < 0.95:
+        return UnknownMetaMessage(rng.choice((0x0A, 0x60)), data=tuple(rng.randrange(256) for _ in range(rng.randrange(3))), time=d)
     return Message('sysex', data=(rng.randrange(128),), time=d)
 
 
@@ -350,8 +405,18 @@ def _history(ctx, seed, maxsteps, rng, mid, log, own_path):
             ctx.check("header fields are the file's own", (mid.type, mid.ticks_per_beat) == (shadow['type'], shadow['tpb']),
                       'header-changed-behind-the-back', case, lambda: {'log': log[-6:], 'file': [mid.type, mid.ticks_per_beat],
                                                                         'expected': [shadow['type'], shadow['tpb']]})
-            got = observe(mid, what, f'{seed}:{i}')
-            want = observe(twin_of(mid), what, f'{seed}:{i}')
+            before = contents(mid)
+            twin = twin_of(mid)
+            edits = rng.random() < 0.4
+            got = observe(mid, what, f'{seed}:{i}', consumer_edits=edits)
+            after = contents(mid)
+            ctx.check('observation leaves the contents alone', before == after,
+                      f'{what}-changed-the-file' + ('-through-handed-out-messages' if edits else ''), case,
+                      lambda: {'step': i, 'log': log[-8:], 'observation': what, 'consumer_edits': edits,
+                               'first_difference': first_diff(before, after)})
+            if before != after:
+                return nontrivial
+            want = observe(twin, what, f'{seed}:{i}')
             last_edit = next((x for x in reversed(log) if x.startswith('edit:')), 'edit:none')
             prev_obs = next((x for x in reversed(log) if x.startswith('obs:')), 'obs:none')
             ctx.check('observation == fresh twin', got == want,
